@@ -110,6 +110,8 @@ def cases(tier):
                        fn not in ("structure_function_kolmogorov", "stf_kolmogorov"))
     for fn in ORIGIN_FUNCS:
         yield Case("repeat:%s" % fn, {"kind": "repeat", "fn": fn})
+        yield Case("elementwise:%s" % fn, {"kind": "elementwise", "fn": fn})
+    yield Case("scalecov", {"kind": "scalecov"})
     for r0 in _r0s(tier):
         for L0 in _L0s(tier):
             yield Case("forms:r0=%g:L0=%g" % (r0, L0), {"kind": "forms", "r0": r0, "L0": L0, "tier": tier})
@@ -249,9 +251,94 @@ def _repeat(p):
     return o
 
 
+def _calls():
+    turb, sc, kl = _funcs()
+    return {
+        "phase_covariance": lambda r, a, b: turb.phase_covariance(r, a, b),
+        "structure_function_vk": lambda r, a, b: sc.structure_function_vk(r, a, b),
+        "structure_function_kolmogorov": lambda r, a, b: sc.structure_function_kolmogorov(r, a),
+        "stf_kolmogorov": lambda r, a, b: kl.stf_kolmogorov(r),
+        "stf_vonKarman": lambda r, a, b: kl.stf_vonKarman(r, b),
+        "stf_vonKarman_yao": lambda r, a, b: kl.stf_vonKarman_yao(r, b),
+    }
+
+
+def _elementwise(p):
+    """Each formula is a function of the separation applied element by element, whatever the shape and size of
+    the array: (a) every element of small arrays of every shape class (square but NOT symmetric, rectangular,
+    1-d, 3-d) equals the value for that separation passed alone; (b) a long vector (70 001 lags) and a large
+    matrix (300 x 300 cross-separations) equal the concatenation of their pieces.  (Added after seeded changes
+    evaluated only one triangle of square arrays, and dropped the tail of arrays longer than a block size.)"""
+    o = Out()
+    f = _calls()[p["fn"]]
+    a, b = 0.15, 12.0
+    tol32 = 1e-5 if p["fn"] == "phase_covariance" else 1e-12       # phase_covariance computes in float32
+    small = {
+        "square_nonsymmetric": numpy.array([[0.0, 0.4, 2.0], [0.1, 0.0, 7.0], [3.0, 0.02, 0.5]]),
+        "rectangular": numpy.array([[0.0, 0.4, 2.0, 9.0], [0.1, 1.0, 7.0, 30.0]]),
+        "vector": numpy.array([0.0, 0.003, 0.4, 2.0, 55.0]),
+        "cube": numpy.arange(27, dtype=float).reshape(3, 3, 3) * 0.37,
+        "square_5x5_cross": numpy.abs(numpy.subtract.outer(numpy.arange(5) * 0.7, numpy.arange(5) * 1.9 + 0.3)),
+    }
+    for name, arr in small.items():
+        got = numpy.asarray(f(arr.copy(), a, b), dtype=float)
+        o.stat("lib_calls", 1 + arr.size)
+        if got.shape != arr.shape:
+            o.check("elementwise_small_arrays", False, sub=name, detail="shape %s for input %s" % (got.shape, arr.shape))
+            continue
+        want = numpy.array([float(numpy.asarray(f(float(x), a, b))) for x in arr.ravel()]).reshape(arr.shape)
+        scale = max(1.0, float(numpy.nanmax(numpy.abs(want))))
+        o.close("elementwise_small_arrays", float(numpy.nanmax(numpy.abs(got - want))) / scale, tol32, sub=name)
+    big = {
+        "vector_70001": (numpy.arange(70001) % 9973) * 0.0031 + 0.001,
+        "matrix_300x300": numpy.abs(numpy.subtract.outer(numpy.arange(300) * 0.11, numpy.arange(300) * 0.07 + 0.013)),
+    }
+    for name, arr in big.items():
+        got = numpy.asarray(f(arr.copy(), a, b), dtype=float)
+        flat = arr.ravel()
+        pieces = numpy.concatenate([numpy.asarray(f(flat[i:i + 997].copy(), a, b), dtype=float).ravel()
+                                    for i in range(0, flat.size, 997)])
+        o.stat("lib_calls", 1 + (flat.size + 996) // 997)
+        if got.shape != arr.shape:
+            o.check("large_array_equals_its_pieces", False, sub=name, detail="shape %s" % (got.shape,))
+            continue
+        scale = max(1.0, float(numpy.nanmax(numpy.abs(pieces))))
+        o.close("large_array_equals_its_pieces", float(numpy.nanmax(numpy.abs(got.ravel() - pieces))) / scale, tol32, sub=name)
+    return o
+
+
+def _scalecov(p):
+    """The formulas are homogeneous: measuring every length (r, r0, L0) in another unit does not change a
+    von Karman structure function or covariance; Kolmogorov D(s r, s r0) = D(r, r0); the KL copies (r in units
+    of r0) scale as s^(5/3).  Checked for s from 1e-8 to 1e8 on separations from 1e-3 L0 to 10 L0.
+    (Added after a seeded change replaced 'separation == 0' by an absolute-tolerance comparison.)"""
+    o = Out()
+    calls = _calls()
+    r = numpy.array([0.0, 0.025, 0.3, 2.0, 25.0, 250.0])
+    a, b = 0.2, 25.0
+    for s_ in (1e-8, 1e-4, 1e-2, 1e2, 1e4, 1e8):
+        for name in ("structure_function_vk", "structure_function_kolmogorov", "phase_covariance"):
+            base = numpy.asarray(calls[name](r.copy(), a, b), dtype=float)
+            got = numpy.asarray(calls[name](r * s_, a * s_, b * s_), dtype=float)
+            o.stat("lib_calls", 2)
+            scale = max(1.0, float(numpy.max(numpy.abs(base))))
+            tol = 2e-5 if name == "phase_covariance" else 1e-9          # float32 inside phase_covariance
+            o.close("unit_of_length_irrelevant", float(numpy.max(numpy.abs(got - base))) / scale, tol,
+                    sub="%s:s=%g" % (name, s_))
+        for name in ("stf_kolmogorov", "stf_vonKarman"):
+            base = numpy.asarray(calls[name](r.copy(), a, b), dtype=float)
+            got = numpy.asarray(calls[name](r * s_, a, b * s_), dtype=float)
+            want = base * s_ ** (5.0 / 3.0)
+            o.stat("lib_calls", 2)
+            scale = max(float(numpy.max(numpy.abs(want))), 1e-300)
+            o.close("unit_of_length_irrelevant", float(numpy.max(numpy.abs(got - want))) / scale, 1e-9,
+                    sub="%s:s=%g" % (name, s_))
+    return o
+
+
 def evaluate(p):
     fn = {"origin": _origin, "forms": _forms, "kolmo": _kolmo, "kl": _kl, "psd": _psd, "gram": _gram,
-          "repeat": _repeat}[p["kind"]]
+          "repeat": _repeat, "elementwise": _elementwise, "scalecov": _scalecov}[p["kind"]]
     # 0 * inf, overflow of K_{5/6} at 0 and the like are outcomes to be judged, not warnings to print
     with warnings.catch_warnings(), numpy.errstate(all="ignore"):
         warnings.simplefilter("ignore")
